@@ -220,6 +220,9 @@ func init() {
 					if j == 0 && c.rng.Intn(3) == 0 { // the tile's own corner / edges first: the zero value of a point
 						p = [][2]int{{0, 0}, {0, p[1]}, {p[0], 0}}[c.rng.Intn(3)]
 					}
+					if j > 0 && c.rng.Intn(5) == 0 { // a vertex repeated in a row is a vertex: it comes back twice
+						p = pts[j-1]
+					}
 					pts = append(pts, p)
 					mp = append(mp, orb.Point{float64(p[0]), float64(p[1])})
 				}
